@@ -1497,7 +1497,7 @@ Qed.
    the handshake inside the tunnel with the ORIGIN's name under the client's settings (or the TLSHandshakeContext
    hook's) - DialTLSContext is not consulted for it *)
 Definition origin_cfg_via_proxy (e : env) (c : client) : tlscfg :=
-  match c_uhs c with Some t => default_sname (e_host e) t | None => effective (e_host e) (c_tls c) end.
+  match hs_slot c with Some t => default_sname (e_host e) t | None => effective (e_host e) (c_tls c) end.
 Definition proxy_cfg (px : proxy) (c : client) : tlscfg :=
   match c_udial c with Some t => default_sname (p_host px) t | None => effective (p_host px) (c_tls c) end.
 Definition acceptable_proxy (px : proxy) (c : client) : bool :=
@@ -1563,9 +1563,9 @@ Lemma last_stack_snoc ds d : last_stack (ds ++ [d]) = Some (d_stack d).
 Proof. unfold last_stack. rewrite rev_unit. reflexivity. Qed.
 
 Lemma sec_origin_via_proxy oh e c :
-  sec (match c_uhs c with Some t => default_sname (e_host e) t | None => tls_view S1 oh (e_host e) (c_tls c) end) =
+  sec (match hs_slot c with Some t => default_sname (e_host e) t | None => tls_view S1 oh (e_host e) (c_tls c) end) =
   sec (origin_cfg_via_proxy e c).
-Proof. unfold origin_cfg_via_proxy. destruct (c_uhs c); [reflexivity | apply tls_view_sec]. Qed.
+Proof. unfold origin_cfg_via_proxy. destruct (hs_slot c); [reflexivity | apply tls_view_sec]. Qed.
 
 Lemma sec_proxy_cfg oh px c :
   sec (match c_udial c with Some t => default_sname (p_host px) t | None => tls_view SP oh (p_host px) (c_tls c) end) =
@@ -1601,7 +1601,7 @@ Proof.
       apply stack_sound_S2, F. }
   destruct (if oh then c_idle1 c else c_idle c); [split; [constructor | intros _; exact I]|].
   set (pcfg := match c_udial c with Some t => default_sname (p_host px) t | None => tls_view SP oh (p_host px) (c_tls c) end).
-  set (cfg := match c_uhs c with Some t => default_sname (e_host e) t | None => tls_view S1 oh (e_host e) (c_tls c) end).
+  set (cfg := match hs_slot c with Some t => default_sname (e_host e) t | None => tls_view S1 oh (e_host e) (c_tls c) end).
   pose proof (sec_proxy_cfg oh px c) as SP'. fold pcfg in SP'.
   pose proof (sec_origin_via_proxy oh e c) as SO. fold cfg in SO.
   assert (TAIL : forall pd,
@@ -1721,3 +1721,25 @@ Proof.
   destruct (outcome_of (do_req eB (snd (run eB new_client (proj_host true ops))))) as [[| |]| |]; try exact I; try exact U.
   apply NC. reflexivity.
 Qed.
+
+(* ---------- fingerprint / impersonation handshakes follow the client's settings (round 5) ---------- *)
+Lemma fp_cfg_sec host c : sec (default_sname host (fp_cfg c)) = sec (effective host (c_tls c)).
+Proof.
+  unfold fp_cfg, effective, default_sname. destruct (c_tls c) as [t|]; cbn;
+    [destruct (nilb (t_sname t)); reflexivity | reflexivity].
+Qed.
+
+(* after ANY operation sequence - setters, requests, Clone (which installs the handshake anew on the clone), forks -
+   the TCP handshakes of a client with a fingerprint handshake installed are governed by exactly the settings the
+   setters accumulated for THAT client: roots, server name, client certificates, skip-verify *)
+Lemma fingerprint_follows_settings e ops c :
+  let c' := snd (run e c ops) in
+  c_fp c' = true -> c_udial c' = None ->
+  sec (tcp_settings e c') = sec (effective (e_host e) (settings ops (c_tls c))).
+Proof.
+  intros c' F U. unfold tcp_settings, user_tls, hs_slot. rewrite U, F.
+  rewrite fp_cfg_sec. subst c'. unfold run. rewrite run_tls. reflexivity.
+Qed.
+
+Lemma clone_keeps_fingerprint c : c_fp (do_clone c) = c_fp c /\ c_tls (do_clone c) = c_tls c.
+Proof. split; reflexivity. Qed.
